@@ -7,7 +7,9 @@ package litestream
 import (
 	"context"
 	"errors"
+	"fmt"
 	"io"
+	"time"
 
 	"github.com/benbjohnson/litestream/internal/vx"
 	"github.com/superfly/ltx"
@@ -22,6 +24,7 @@ type vxFaultClient struct {
 	dupWrites  int
 	listCalls  int
 	writeCalls int
+	breaks     int // downloads that failed mid-stream (at most one per scenario)
 }
 
 func (c *vxFaultClient) remoteMax() ltx.TXID {
@@ -153,8 +156,32 @@ func (c *vxFaultClient) OpenLTXFile(ctx context.Context, level int, minTXID, max
 	if c.faulty && vx.Fault("openFails") {
 		return nil, errVxInjected
 	}
-	return c.vxStoreClient.OpenLTXFile(ctx, level, minTXID, maxTXID, offset, size)
+	rc, err := c.vxStoreClient.OpenLTXFile(ctx, level, minTXID, maxTXID, offset, size)
+	if err == nil && c.faulty && c.breaks == 0 && vx.Fault("streamBreaks") {
+		c.breaks++
+		// the download delivers a prefix and then fails (error mid-stream)
+		b := c.data[vxKey(level, minTXID, maxTXID)][offset:]
+		return &vxBreakingReader{b: b[:len(b)/2]}, nil
+	}
+	return rc, err
 }
+
+// vxBreakingReader delivers its bytes and then a transport error instead of EOF.
+type vxBreakingReader struct {
+	b   []byte
+	pos int
+}
+
+func (r *vxBreakingReader) Read(p []byte) (int, error) {
+	if r.pos >= len(r.b) {
+		return 0, errVxInjected
+	}
+	n := copy(p, r.b[r.pos:])
+	r.pos += n
+	return n, nil
+}
+
+func (r *vxBreakingReader) Close() error { return nil }
 
 // VxC05Compact: a compaction whose listing, download or upload fails leaves no
 // partial file, does not move the cached level maximum to a file that does not
@@ -222,4 +249,83 @@ func VxC05Limited() {
 	vx.Assert("uploaded-up-to-limit", int(c.remoteMax()) == min(n, limit) && !c.gapSeen)
 	err = r.sync(context.Background(), limit)
 	vx.Assert("sync-loop-reaches-local-position", err == nil && int(c.remoteMax()) == n && !c.gapSeen)
+}
+
+// vxMonitorClient: a replica whose calls fail in the first `faultyCalls` calls and
+// then work; it cancels the monitor's context once enough fault-free calls have
+// been made for any retrying loop to have caught up.
+type vxMonitorClient struct {
+	vxStoreClient
+	calls       int
+	faultyCalls int
+	cancel      context.CancelFunc
+	cancelled   bool
+}
+
+func (c *vxMonitorClient) step() error {
+	c.calls++
+	if c.calls <= c.faultyCalls {
+		// what a transport reports: a plain error, or one that wraps a context error
+		// although the caller's context is alive (per-request timeouts, a cancelled
+		// hedged request)
+		switch vx.Choose("faultKind", 0, 3) {
+		case 1:
+			return errVxInjected
+		case 2:
+			return fmt.Errorf("vx: request timed out: %w", context.DeadlineExceeded)
+		case 3:
+			return fmt.Errorf("vx: request aborted: %w", context.Canceled)
+		}
+	}
+	return nil
+}
+
+func (c *vxMonitorClient) LTXFiles(ctx context.Context, level int, seek ltx.TXID, useMetadata bool) (ltx.FileIterator, error) {
+	if err := c.step(); err != nil {
+		return nil, err
+	}
+	return c.vxStoreClient.LTXFiles(ctx, level, seek, useMetadata)
+}
+
+func (c *vxMonitorClient) WriteLTXFile(ctx context.Context, level int, minTXID, maxTXID ltx.TXID, r io.Reader) (*ltx.FileInfo, error) {
+	if err := c.step(); err != nil {
+		return nil, err
+	}
+	return c.vxStoreClient.WriteLTXFile(ctx, level, minTXID, maxTXID, r)
+}
+
+// VxC05Monitor: the replica's background loop (the real Replica.monitor with its
+// back-off and retry logic; tickers and timers fire at once) under storage calls
+// that fail for a while - with plain errors or with errors that wrap a context
+// error while the monitor's own context is alive - and then work. The loop must
+// keep running until its context is cancelled, and by then the replica must have
+// caught up with the local position.
+func VxC05Monitor() {
+	n := vx.Param("N", 2)
+	db := NewDB(vx.TempDir() + "/db")
+	local := vxLocalL0(db, n)
+	ctx, cancel := context.WithCancel(context.Background())
+	c := &vxMonitorClient{cancel: cancel}
+	c.faultyCalls = vx.Choose("faultyCalls", 0, 2)
+	// stop the loop after enough ticker rounds for every retry to have happened
+	vx.OnTick(4*(c.faultyCalls+n+2), func() {
+		c.cancelled = true
+		cancel()
+	})
+	m := vx.Choose("remotePrefix", 0, n-1)
+	for t := 1; t <= m; t++ {
+		c.put(local[t-1])
+	}
+	r := NewReplicaWithClient(db, c)
+	db.Replica = r
+	r.SyncInterval = time.Millisecond
+	r.monitor(ctx)
+	vx.Assert("monitor-runs-until-its-context-is-cancelled", c.cancelled)
+	max := ltx.TXID(0)
+	for _, f := range c.files {
+		if f.Level == 0 && f.MaxTXID > max {
+			max = f.MaxTXID
+		}
+	}
+	vx.Assert("replica-catches-up-once-faults-stop", int(max) == n)
 }
